@@ -77,6 +77,52 @@ def inv(node, path="root"):
     return None
 
 
+def _kids(node):
+    t = node.name
+    if t == "Bin":
+        return [("values[%d]" % i, v) for i, v in enumerate(node.values)] + [
+            ("underflow", node.underflow), ("overflow", node.overflow), ("nanflow", node.nanflow)]
+    if t in ("SparselyBin", "Categorize"):
+        ks = [("bins[%s]" % k, v) for k, v in node.bins.items()]
+        return ks + ([("nanflow", node.nanflow)] if t == "SparselyBin" else [])
+    if t in ("CentrallyBin", "IrregularlyBin", "Stack"):
+        return [("bins[%d]" % i, v) for i, (_, v) in enumerate(node.bins)] + [("nanflow", node.nanflow)]
+    if t in ("Label", "UntypedLabel"):
+        return [("pairs[%s]" % k, v) for k, v in node.pairs.items()]
+    if t in ("Index", "Branch"):
+        return [("values[%d]" % i, v) for i, v in enumerate(node.values)]
+    if t == "Fraction":
+        return [("numerator", node.numerator), ("denominator", node.denominator)]
+    if t == "Select":
+        return [("cut", node.cut)]
+    return []
+
+
+def views(node, path="root"):
+    """Public handles on the same child must stay handles on the same child: Branch publishes its members both as
+    values[i] and as attributes i0..i9 (and get(i) / __call__ for every collection). None, or (path, type, message)."""
+    t = node.name
+    if t == "Branch":
+        for i, v in enumerate(node.values[:10]):
+            h = getattr(node, "i%d" % i, None)
+            if h is not v:
+                return (path, t, "attribute i%d is not values[%d] (it shows %s)" % (
+                    i, i, "nothing" if h is None else "entries=%r where values[%d] has entries=%r" % (h.entries, i, v.entries)))
+    if t in ("Index", "Branch"):
+        for i, v in enumerate(node.values):
+            if node.get(i) is not v or node(i) is not v:
+                return (path, t, "get(%d) / (%d) is not values[%d]" % (i, i, i))
+    if t in ("Label", "UntypedLabel"):
+        for k, v in node.pairs.items():
+            if node.get(k) is not v or node(k) is not v:
+                return (path, t, "get(%r) is not pairs[%r]" % (k, k))
+    for name, k in _kids(node):
+        r = views(k, path + "." + name)
+        if r:
+            return r
+    return None
+
+
 def count_invariant_exempt(node):
     """Count with a transform accumulates transformed weights: parent totals do not apply."""
     return False
